@@ -212,6 +212,40 @@ def run(ctx):
         else:
             r.fail(m, m.node, "marker " + marker, "add_argument does not record %s from argument.%s(): a later ordering check cannot fire" % (marker, pred))
 
+    # ---------------------------------------------------------------- R7
+    r = ctx.rule("C06-R7", "RESET", "a replacement (set_*) starts from scratch: it resets every field its add_* "
+                 "counterpart writes, before adding", reference=4)
+    for kind in ("arguments", "options", "command_options", "command_names"):
+        setter = bld.methods.get("set_" + kind)
+        adder = bld.methods.get("add_" + kind[:-1])
+        if setter is None or adder is None:
+            continue
+        written = set()
+        for n in walk_no_nested(adder.node):
+            if isinstance(n, (ast.Assign, ast.AugAssign)):
+                for t in (n.targets if isinstance(n, ast.Assign) else [n.target]):
+                    a = q.self_attr_root(t) or (t.attr if is_self_attr(t) else None)
+                    if a:
+                        written.add(a)
+            if isinstance(n, ast.Call) and isinstance(n.func, ast.Attribute) and n.func.attr in q.MUTATORS:
+                a = q.self_attr_root(n.func.value)
+                if a:
+                    written.add(a)
+        cfg = ctx.cfg(setter)
+        add_calls = [cfg.node_of(c) for c in q.calls(setter) if isinstance(c.func, ast.Attribute) and c.func.attr.startswith("add_")]
+        reset = {}
+        for n in cfg.nodes:
+            if n.kind == "stmt" and isinstance(n.ast, ast.Assign) and q.is_fresh_expr(n.ast.value):
+                for t in n.ast.targets:
+                    if is_self_attr(t) and all(cfg.dominates(n.id, a.id) for a in add_calls if a is not None):
+                        reset[t.attr] = n
+        missing = sorted(written - set(reset))
+        if not missing:
+            r.ok("set_%s resets %s before adding" % (kind, sorted(written)))
+        else:
+            r.fail(setter, setter.node, "set_%s does not reset %s" % (kind, missing), "set_%s replaces the %s but keeps %s from before: ordering / collision checks of the "
+                   "replacement are made against elements that are gone" % (kind, kind.replace("_", " "), ", ".join(missing)))
+
     # ---------------------------------------------------------------- R6
     r = ctx.rule("C06-R6", "OWNER", "the finished format does not share mutable containers with the builder (later "
                  "builder operations must not change a format already built)", reference=4)
